@@ -4,6 +4,7 @@ package verifvs
 
 import (
 	"runtime"
+	"strings"
 	"sync"
 	"sync/atomic"
 	"unsafe"
@@ -85,6 +86,38 @@ type MutexModel struct {
 	objModel
 	locked bool
 	owner  *thread
+	// atomicSec: critical sections of this mutex contain no scheduling point (checked) and Unlock is
+	// not a scheduling point, so the mutex is never observed held; readerFns names the functions whose
+	// sections commute with each other (read mode in transition footprints)
+	atomicSec  bool
+	readerFns  []string
+	lastLockPC uintptr
+	pcClass    []pcClass
+}
+
+type pcClass struct {
+	pc     uintptr
+	reader bool
+}
+
+// readerSite reports whether the Lock call at pc belongs to a function declared commuting.
+func (m *MutexModel) readerSite(pc uintptr) bool {
+	for i := range m.pcClass {
+		if m.pcClass[i].pc == pc {
+			return m.pcClass[i].reader
+		}
+	}
+	r := false
+	if f := runtime.FuncForPC(pc); f != nil {
+		name := f.Name()
+		for _, fn := range m.readerFns {
+			if strings.HasSuffix(name, fn) {
+				r = true
+			}
+		}
+	}
+	m.pcClass = append(m.pcClass, pcClass{pc, r})
+	return r
 }
 
 // VMutex replaces sync.Mutex in instrumented code.
@@ -102,9 +135,11 @@ func (m *VMutex) Lock() {
 	if cur.aborting {
 		panic(abortSentinel)
 	}
-	block(pending{kind: opLock, mu: &m.m, pc: callerPC()})
+	pc := callerPC()
+	block(pending{kind: opLock, mu: &m.m, pc: pc})
 	m.m.locked = true
-	if m.m.nover {
+	m.m.lastLockPC = pc
+	if m.m.nover || (m.m.atomicSec && m.m.readerSite(m.m.lastLockPC)) {
 		m.m.owner = cur.running
 		m.m.owner.commHeld++
 	}
@@ -124,11 +159,10 @@ func (m *VMutex) Unlock() {
 		m.mu.Unlock() // fatal error exactly as the real program
 		return
 	}
-	if m.m.nover {
-		if m.m.owner != nil {
-			m.m.owner.commHeld--
-			m.m.owner = nil
-		}
+	if m.m.owner != nil {
+		// an atomic section (commutative mutex, or a section entered from a commuting function)
+		m.m.owner.commHeld--
+		m.m.owner = nil
 	} else if !cur.aborting {
 		// releasing is a visible operation (it enables waiters): a scheduling point of its own
 		block(pending{kind: opYield, pc: callerPC(), obj: uintptr(unsafe.Pointer(&m.m))})
@@ -145,6 +179,19 @@ func (m *VMutex) Unlock() {
 //
 //go:norace
 func (m *VMutex) Commutative() { m.m.nover = true }
+
+// AtomicSections declares that the critical sections of this mutex entered from the named functions
+// (suffix match on the fully qualified function name, e.g. "(*ClientMap).SendQueue") contain no
+// scheduling point (checked at run time: violating it is an engine error) and commute with each
+// other.  Such a section is one transition (its Unlock is not a scheduling point) that accesses the
+// mutex in read mode for the partial-order reduction; all other sections of the mutex are ordinary
+// (write mode, Unlock is a scheduling point).  Each use needs a written argument in the harness.
+//
+//go:norace
+func (m *VMutex) AtomicSections(commutingFns ...string) {
+	m.m.atomicSec = true
+	m.m.readerFns = commutingFns
+}
 
 //go:norace
 func (m *VMutex) TryLock() bool {
